@@ -55,6 +55,9 @@ mod gpu_backend_req;
 pub mod gpu_message;
 pub use self::gpu_backend_req::GpuBackend;
 
+#[cfg(feature = "verif-hooks")]
+pub mod verif;
+
 /// Errors for vhost-user operations
 #[derive(Debug)]
 pub enum Error {
